@@ -657,53 +657,37 @@ func ruleC06Trigger(w *World, r *Report) {
 	}
 	r.check(bad2 < 0, "R06.5", w.FuncName(h2), "has2ndBit ⇔ V4 flag (0x02), all 256 values", w.Pos(h2.Pos()), "table agrees", fmt.Sprintf("has2ndBit(%#x) is wrong", bad2))
 	r.check(bad5 < 0 && n5 == 128, "R06.5", w.FuncName(h5), "has5thBit ⇔ CHV4 flag (0x10), all 256 values (satisfiable)", w.Pos(h5.Pos()), "table agrees", fmt.Sprintf("has5thBit(%#x) is wrong (true for %d of 256 values)", bad5, n5))
-	// needAllocIP = !(V4 && !CHV4): path enumeration over the two predicates
+	// needAllocIP = !(V4 && !CHV4): the function is interpreted for the four valuations of the two
+	// predicates (whatever its shape: early returns, a boolean expression, a switch)
 	n := 0
-	enumPaths(need, 1, 100, func(p *Path) {
-		ret, ok := p.last().(*ssa.Return)
-		if !ok {
-			return
-		}
-		atoms, feasible := pathAtoms(p)
-		if !feasible {
-			return
-		}
-		v4, ch := "", ""
-		for _, a := range atoms {
-			c, isCall := a.V.(*ssa.Call)
-			if !isCall {
+	for _, v4 := range []bool{false, true} {
+		for _, ch := range []bool{false, true} {
+			foreign := ""
+			got, okE := evalBoolFunc(need, func(c *ssa.Call) (bool, bool) {
+				if !strings.HasSuffix(symOf(c.Call.Args[0]).String(), "UEIPAddressFields.Flags") {
+					foreign = symOf(c.Call.Args[0]).String()
+					return false, false
+				}
+				switch staticCallee(c) {
+				case h2:
+					return v4, true
+				case h5:
+					return ch, true
+				}
+				foreign = calleeName(c)
+				return false, false
+			})
+			desc := fmt.Sprintf("needAllocIP[V4=%s CHV4=%s]", tf(v4), tf(ch))
+			if !okE {
+				r.bad("R06.5", w.FuncName(need), desc+" is decided by V4 and CHV4 only", w.Pos(need.Pos()), "needAllocIP depends on something other than the two flag predicates ("+foreign+")")
 				continue
 			}
-			// the argument is the Flags field of the parameter
-			if !strings.HasSuffix(symOf(c.Call.Args[0]).String(), "UEIPAddressFields.Flags") {
-				continue
-			}
-			switch staticCallee(c) {
-			case h2:
-				v4 = tf(a.Truth)
-			case h5:
-				ch = tf(a.Truth)
-			}
+			n++
+			want := !(v4 && !ch)
+			r.check(got == want, "R06.5", w.FuncName(need), fmt.Sprintf("%s → %v", desc, want), w.Pos(need.Pos()), fmt.Sprint(got), fmt.Sprintf("%s = %v", desc, got))
 		}
-		verdict, isK := constBool(resolveAlongPath(p, res(ret, 0)))
-		if !isK {
-			r.bad("R06.5", w.FuncName(need), "needAllocIP verdict is constant per path", w.Pos(ret.Pos()), "non-constant verdict")
-			return
-		}
-		n++
-		var want bool
-		switch {
-		case v4 == "T" && ch == "F":
-			want = false
-		case v4 == "F", ch == "T":
-			want = true
-		default:
-			r.bad("R06.5", w.FuncName(need), "needAllocIP decides on V4 and CHV4 only", w.Pos(ret.Pos()), fmt.Sprintf("path with V4=%s CHV4=%s", orDash(v4), orDash(ch)))
-			return
-		}
-		r.check(verdict == want, "R06.5", w.FuncName(need), fmt.Sprintf("needAllocIP[V4=%s CHV4=%s] → %v", orDash(v4), orDash(ch), want), w.Pos(ret.Pos()), fmt.Sprint(verdict), fmt.Sprintf("needAllocIP[V4=%s CHV4=%s] = %v", orDash(v4), orDash(ch), verdict))
-	})
-	r.floor("R06.5 needAllocIP outcomes", n, 3)
+	}
+	r.floor("R06.5 needAllocIP outcomes", n, 4)
 	// use: allocation on the needAllocIP edge only, with the PDR's session id; allocIPFlag marks it
 	pu := w.Fn(P, "pfcpiface.(*pdr).parseUEAddressIE")
 	alloc := w.Fn(P, "pfcpiface.(*IPPool).LookupOrAllocIP")
@@ -824,4 +808,84 @@ func ruleC06Release(w *World, r *Report) {
 
 func dealloc0(w *World, prop string) *ssa.Function {
 	return w.Fn(prop, "pfcpiface.(*IPPool).DeallocIP")
+}
+
+// evalBoolFunc interprets a small boolean function whose only inputs are calls answered by atom.
+func evalBoolFunc(f *ssa.Function, atom func(*ssa.Call) (bool, bool)) (bool, bool) {
+	env := map[ssa.Value]bool{}
+	var prev *ssa.BasicBlock
+	b := f.Blocks[0]
+	val := func(v ssa.Value) (bool, bool) {
+		if c, isK := constBool(v); isK {
+			return c, true
+		}
+		x, ok := env[v]
+		return x, ok
+	}
+	for steps := 0; steps < 200; steps++ {
+		var next *ssa.BasicBlock
+		for _, ins := range b.Instrs {
+			switch x := ins.(type) {
+			case *ssa.Phi:
+				for k, p := range b.Preds {
+					if p == prev {
+						if v, ok := val(x.Edges[k]); ok {
+							env[x] = v
+						}
+					}
+				}
+			case *ssa.Call:
+				if x.Type().String() == "bool" {
+					v, ok := atom(x)
+					if !ok {
+						return false, false
+					}
+					env[x] = v
+				}
+			case *ssa.UnOp:
+				if x.Op == token.NOT {
+					if v, ok := val(x.X); ok {
+						env[x] = !v
+					}
+				}
+			case *ssa.BinOp:
+				l, ok1 := val(x.X)
+				rr, ok2 := val(x.Y)
+				if ok1 && ok2 {
+					switch x.Op {
+					case token.EQL:
+						env[x] = l == rr
+					case token.NEQ:
+						env[x] = l != rr
+					case token.AND:
+						env[x] = l && rr
+					case token.OR:
+						env[x] = l || rr
+					}
+				}
+			case *ssa.If:
+				c, ok := val(x.Cond)
+				if !ok {
+					return false, false
+				}
+				if c {
+					next = b.Succs[0]
+				} else {
+					next = b.Succs[1]
+				}
+			case *ssa.Jump:
+				next = b.Succs[0]
+			case *ssa.Return:
+				if len(x.Results) != 1 {
+					return false, false
+				}
+				return val(x.Results[0])
+			}
+		}
+		if next == nil {
+			return false, false
+		}
+		prev, b = b, next
+	}
+	return false, false
 }
